@@ -1,3 +1,282 @@
+/-
+  Model driver of engine `upg` (property C20).  Reads the same script as
+  harness/h_upg.c and prints the events the model predicts, one line per event:
+      ev c=<c> <event>
+  (tools/props/C20.py brings the harness log into the same vocabulary).
+  Extra driver-only line: `rd <c> <k1,k2,…>` = sizes of the successful recv calls the
+  real daemon made on that connection (the partition of the byte stream into reads is
+  the kernel's / event loop's choice, the model is parametric in it); without it the
+  driver predicts "one recv of everything available per round".
+-/
+import Mhd.Model.UpgDaemon
 import Driver.Common
-/- stub: replaced by the builder of this engine -/
-def main : IO Unit := Driver.runEngine () (fun s _ => (s, ["bad-op"]))
+open Mhd.Upg Driver
+
+structure RespSpec where
+  kind : String := "copy"
+  code : Nat := 200
+  size : Nat := 5
+  flags : Nat := 0
+  conn : Option Bytes := none
+  hdrs : List (Bytes × Bytes) := []
+  bad : Bool := false       -- a header operation this driver does not model
+
+structure DS where
+  d : Daemon
+  started : Bool := false
+  stopped : Bool := false
+  upgradeFlag : Bool := false
+  epoll : Bool := false            -- edge-triggered loop: write readiness is remembered
+  resps : List (Nat × RespSpec) := []
+  behs : List ((Nat × Nat) × Beh) := []
+  hints : List (Nat × List Nat) := []
+  printed : List (Nat × Nat) := []      -- per connection: number of log entries already printed
+  sawUpgrade : List Nat := []           -- connections whose `upgrade` event has been printed
+
+def pat (rid off : Nat) : UInt8 := UInt8.ofNat (97 + (rid * 7 + off) % 26)
+
+def lookup {α} (l : List (Nat × α)) (k : Nat) : Option α := (l.find? (·.1 == k)).map (·.2)
+
+def asciiLower (bs : Bytes) : Bytes := bs.map lower
+
+def respOf (resps : List (Nat × RespSpec)) (rid : Nat) : Resp :=
+  let s := (lookup resps rid).getD {}
+  { upgrade := s.kind == "upgrade" || s.kind == "upgrade-hc",
+    closeInHandler := s.kind == "upgrade-hc",
+    code := s.code, connHdr := s.conn, hdrs := s.hdrs, flags10 := s.flags % 4 != 0 }
+
+/-- canonical text of an ordinary reply (tools/props/C20.py parses the real one into this) -/
+def renderOf (resps : List (Nat × RespSpec)) (rid : Nat) : Bytes :=
+  let s := (lookup resps rid).getD {}
+  let body := (List.range s.size).map (pat rid)
+  s!"[reply code={s.code} body={hexOfBytes body}]".toUTF8.toList
+
+def findCrlfCrlf : Bytes → Option Nat
+  | 13 :: 10 :: 13 :: 10 :: _ => some 4
+  | _ :: r => (findCrlfCrlf r).map (· + 1)
+  | [] => none
+
+def firstLine (bs : Bytes) : Bytes := bs.takeWhile (· != 13)
+
+/-- well-formed generated requests only: head ends at the first CRLFCRLF, version is the
+    last word of the request line, method the first -/
+def parseHead (bs : Bytes) : Option Head :=
+  match findCrlfCrlf bs with
+  | none => none
+  | some n =>
+    let line := String.ofList ((firstLine bs).map fun b => Char.ofNat b.toNat)
+    let ws := line.splitOn " "
+    let v := ws.getLast?.getD ""
+    let ver := if v == "HTTP/1.0" then Ver.v10 else if v == "HTTP/1.1" then Ver.v11
+               else if v.startsWith "HTTP/1." then Ver.v12 else Ver.future
+    some { len := n, ver := ver, connect := ws.head? == some "CONNECT", wantsClose := false }
+
+def dateMask : Bytes := "D".toUTF8.toList
+
+def mkBase (upg : Bool) (resps : List (Nat × RespSpec)) : Cfg :=
+  { allowUpgrade := upg, parser := ⟨parseHead⟩, resp := respOf resps,
+    beh := fun _ => { early := false, tries := [0] }, date := dateMask, render := renderOf resps }
+
+def behOf (behs : List ((Nat × Nat) × Beh)) (c r : Nat) : Beh :=
+  ((behs.find? (fun e => e.1.1 == c && e.1.2 == r)).map (·.2)).getD { early := false, tries := [0] }
+
+def freshDaemon (s : DS) : Daemon := Daemon.init (mkBase s.upgradeFlag s.resps) (behOf s.behs)
+
+def kvOf (w key : String) : Option String :=
+  if w.startsWith (key ++ "=") then some (w.drop (key.length + 1)).toString else none
+
+def parseRids (spec : String) : Option (List Nat) :=
+  (spec.splitOn "/").mapM fun p => if p.startsWith "r" then (p.drop 1).toString.toNat? else none
+
+def isConnName (n : Bytes) : Bool := asciiLower n == asciiLower Mhd.Gen.Upg.hdrConnection
+
+def applyHdr (s : RespSpec) (kind : Char) (n v : Bytes) : RespSpec :=
+  if kind == 'h' then
+    if isConnName n then
+      match s.conn with
+      | none => { s with conn := some v }
+      | some old => { s with conn := some (old ++ [44, 32] ++ v) }
+    else { s with hdrs := s.hdrs ++ [(n, v)] }
+  else if kind == 'd' then
+    if isConnName n then
+      match s.conn with
+      | some old => if asciiLower old == asciiLower v then { s with conn := none } else { s with bad := true }
+      | none => s
+    else { s with bad := true }
+  else { s with bad := true }
+
+def parseResp (ws : List String) : Option RespSpec :=
+  ws.foldlM (init := ({} : RespSpec)) fun s w =>
+    match kvOf w "kind" with
+    | some k =>
+      if k == "upgrade" || k == "upgrade-hc" then some { s with kind := k, conn := some "Upgrade".toUTF8.toList }
+      else some { s with kind := k }
+    | none =>
+    match kvOf w "code" with
+    | some v => v.toNat?.map fun n => { s with code := n }
+    | none =>
+    match kvOf w "size" with
+    | some v => v.toNat?.map fun n => { s with size := n }
+    | none =>
+    match kvOf w "flags" with
+    | some v => v.toNat?.map fun n => { s with flags := n }
+    | none =>
+    let hd := if w.startsWith "h=" then some 'h' else if w.startsWith "d=" then some 'd' else none
+    match hd with
+    | some k =>
+      match ((w.drop 2).toString.splitOn ":") with
+      | [a, b] => match bytesOfHex a, bytesOfHex b with
+        | some n, some v => some (applyHdr s k n v)
+        | _, _ => none
+      | _ => none
+    | none => none
+
+def showEv (x : Conn) : Ev → List String
+  | .start => ["start"]
+  | .handler r f => [s!"handler r={r} phase={if f then "final" else "first"}"]
+  | .queued r rid ok => [s!"queued r={r} rid={rid} -> {if ok then 1 else 0}"]
+  | .ioRecv _ => ["io"]
+  | .ioSend bs => ["io", s!"wire {hexOfBytes bs}"]
+  | .ioShutdown => ["io"]
+  | .upgrade _ extra => [s!"upgrade extra={hexOfBytes extra}"]
+  | .upClose ok => [s!"up-close -> {if ok then 1 else 0}"]
+  | .appRecv bs => [s!"up-data {hexOfBytes bs}"]
+  | .appSend bs => [s!"up-sent n={bs.length}", s!"wire {hexOfBytes bs}"]
+  | .completed r code => [s!"completed r={r} code={code}"]
+  | .connClose => ["conn-close"]
+  | .sockClose => ["sock-close", if x.sockIn.isEmpty then "eof" else "rst"]
+  | .stopMark => ["@stop"]
+  | .fault site => [s!"fault {site}"]
+
+/-- print the log entries not yet printed; daemon I/O before the hand-over is not printed
+    (its sizes are an input), after the hand-over it is printed as `io-after-upgrade` -/
+def flush (s : DS) : DS × List String := Id.run do
+  let mut out : List String := []
+  let mut printed := s.printed
+  let mut saw := s.sawUpgrade
+  for c in s.d.ids do
+    let x := s.d.conn c
+    let n := (lookup printed c).getD 0
+    for e in x.log.drop n do
+      for t in showEv x e do
+        if t == "io" then
+          if saw.contains c then out := out ++ [s!"ev c={c} io-after-upgrade"]
+        else out := out ++ [s!"ev c={c} {t}"]
+      if e.isUpgrade then saw := c :: saw
+    printed := (c, x.log.length) :: printed.filter (·.1 != c)
+  return ({ s with printed := printed, sawUpgrade := saw }, out)
+
+def big : Nat := 1 <<< 40
+
+/-- schedule of one round: every connection that was in the connections list when the round
+    started; reads per hint (or everything available), writes unrestricted -/
+def mkSched (s : DS) : (Nat → Option IoAct) × List (Nat × List Nat) := Id.run do
+  let mut acts : List (Nat × IoAct) := []
+  let mut hints := s.hints
+  for c in s.d.ids do
+    let x := s.d.conn c
+    if x.loc == Loc.active then
+      let avail := x.sockIn.length
+      let (rdy, mx) :=
+        match lookup hints c with
+        | none => (decide (avail > 0), big)
+        | some [] => (false, 0)
+        | some (k :: _) =>
+          if x.st == St.recv && k ≤ avail && k > 0 then
+            (true, k)
+          else (false, 0)
+      if rdy && x.st == St.recv then
+        match lookup hints c with
+        | some (_ :: rest) => hints := (c, rest) :: hints.filter (·.1 != c)
+        | _ => pure ()
+      acts := (c, { rdReady := rdy, rdMax := mx, wrReady := s.epoll || x.st == St.sending, wrMax := big }) :: acts
+  return (fun c => lookup acts c, hints)
+
+def doRound (s : DS) : DS :=
+  let (sched, hints) := mkSched s
+  { s with d := step s.d (.round sched), hints := hints }
+
+def stepLine0 (s : DS) (ws : List String) : DS × List String :=
+  match ws with
+  | "case" :: rest => ({ d := Daemon.init (mkBase false []) (behOf []) }, [s!"case {(rest.head?).getD "-"}"])
+  | "cfg" :: rest =>
+    if s.started then (s, ["bad-op"]) else
+    let u := rest.any fun w => kvOf w "upgrade" == some "1"
+    let e := rest.any fun w => (kvOf w "mode").any (·.startsWith "epoll")
+    ({ s with upgradeFlag := u, epoll := e }, ["ok"])
+  | "resp" :: rid :: rest =>
+    match rid.toNat?, parseResp rest with
+    | some r, some sp =>
+      let s := { s with resps := (r, sp) :: s.resps.filter (·.1 != r) }
+      ({ s with d := { s.d with base := mkBase s.upgradeFlag s.resps } }, [if sp.bad then "unsupported" else "ok"])
+    | _, _ => (s, ["bad-op"])
+  | "beh" :: c :: r :: rest =>
+    match c.toNat?, r.toNat? with
+    | some c, some r =>
+      let f := (rest.findSome? fun w => kvOf w "f").getD "c"
+      let l := (rest.findSome? fun w => kvOf w "l").getD "r0"
+      let b : Option Beh :=
+        if f == "c" then (parseRids l).map fun t => { early := false, tries := t }
+        else (parseRids f).map fun t => { early := true, tries := t }
+      match b with
+      | some b =>
+        let s := { s with behs := ((c, r), b) :: s.behs }
+        ({ s with d := { s.d with behs := behOf s.behs } }, ["ok"])
+      | none => (s, ["bad-op"])
+    | _, _ => (s, ["bad-op"])
+  | ["start"] =>
+    if s.started then (s, ["bad-op"]) else
+    ({ s with started := true, d := freshDaemon s }, ["started"])
+  | ["tok", h] =>
+    match bytesOfHex h with
+    | some v => (s, [s!"tok {if hasToken v Mhd.Gen.Upg.upgradeToken then 1 else 0}"])
+    | none => (s, ["bad-op"])
+  | ["rd", c, ks] =>
+    match c.toNat?, (ks.splitOn ",").mapM (fun k => if k == "-" then some 0 else k.toNat?) with
+    | some c, some l => ({ s with hints := (c, l.filter (· > 0)) :: s.hints.filter (·.1 != c) }, ["ok"])
+    | _, _ => (s, ["bad-op"])
+  | _ =>
+    if ! s.started || s.stopped then (s, ["bad-op"]) else
+    match ws with
+    | ["arrive", c, _] =>
+      match c.toNat? with
+      | some c =>
+        if (s.d.conn c).loc != Loc.none then (s, ["bad-op"]) else
+        flush { s with d := step s.d (.arrive c) }
+      | none => (s, ["bad-op"])
+    | ["send", c, h] =>
+      match c.toNat?, bytesOfHex h with
+      | some c, some bs =>
+        if (s.d.conn c).loc == Loc.none then (s, ["bad-op"]) else
+        flush { s with d := step s.d (.clientSend c bs) }
+      | _, _ => (s, ["bad-op"])
+    | ["round"] => flush (doRound s)
+    | ["rounds", n] =>
+      match n.toNat? with
+      | some n => flush ((List.range n).foldl (fun s _ => doRound s) s)
+      | none => (s, ["bad-op"])
+    | ["up-close", c] =>
+      match c.toNat? with
+      | some c => if (s.d.conn c).appOwns then flush { s with d := step s.d (.upClose c) } else (s, ["bad-op"])
+      | none => (s, ["bad-op"])
+    | ["up-recv", c] =>
+      match c.toNat? with
+      | some c => if (s.d.conn c).appOwns then flush { s with d := step s.d (.upRecv c 65536) } else (s, ["bad-op"])
+      | none => (s, ["bad-op"])
+    | ["up-send", c, h] =>
+      match c.toNat?, bytesOfHex h with
+      | some c, some bs =>
+        if (s.d.conn c).appOwns then flush { s with d := step s.d (.upSend c bs) } else (s, ["bad-op"])
+      | _, _ => (s, ["bad-op"])
+    | ["stop"] =>
+      let (s', o) := flush { s with d := step s.d .stop, stopped := true }
+      (s', o ++ ["stopped"])
+    | _ => (s, ["bad-op"])
+
+/-- echo the operation (first three words) like the harness does, then its events -/
+def stepLine (s : DS) (ws : List String) : DS × List String :=
+  let (s', o) := stepLine0 s ws
+  (s', ("# " ++ " ".intercalate (ws.take 3)) :: o)
+
+def main : IO Unit :=
+  runEngine ({ d := Daemon.init (mkBase false []) (behOf []) } : DS) stepLine
